@@ -216,10 +216,12 @@ def cbmc_cmd(u, ob, witness, disabled=()):
     cmd += ['--object-bits', str(u.object_bits or 12)]
     if witness:
         cmd += ['-DWITNESS', '--no-standard-checks', '--drop-unused-functions', '--no-malloc-may-fail', '--stop-on-fail', '--property', 'verif_end.assertion.1']
+        if ob.backend in ('kissat', None): cmd += ['--external-sat-solver', 'kissat']
     else:
         cmd += [c for c in CBMC_CHECKS if c not in disabled] + ob.extra_flags + ['--stop-on-fail']
         if ob.backend == 'cadical': cmd += ['--sat-solver', 'cadical']
-        elif ob.backend == 'kissat': cmd += ['--external-sat-solver', 'kissat']
+        elif ob.backend in ('kissat', None): cmd += ['--external-sat-solver', 'kissat']    # default: kissat (minisat, CBMC's built-in default, is 2-10x slower on the large instances here)
+        elif ob.backend == 'minisat': pass
         elif ob.backend == 'cvc5': cmd += ['--cvc5']       # SMT back end (term-level sharing helps float-heavy queries)
     return cmd
 
@@ -236,7 +238,7 @@ def check_ob(ob, seed, known):
     """Runs witness twin, translation validation, the query, and replay.  Fills ob.result."""
     u = ob.unit; t0 = time.time()
     r = {'id': ob.oid, 'entry': ob.entry, 'param': ob.param, 'desc': ob.desc, 'core': ob.core, 'unwind': ob.unwind, 'bounds': ob.bounds,
-         'assumptions': ob.assumptions, 'stubs': ob.stubs, 'functions': ob.functions, 'backend': ob.backend or 'minisat(default)',
+         'assumptions': ob.assumptions, 'stubs': ob.stubs, 'functions': ob.functions, 'backend': ob.backend or 'kissat(default)',
          'status': None, 'witness': None, 'tv_vectors': 0, 'solver_s': 0.0, 'wall_s': 0.0, 'vars': 0, 'clauses': 0, 'detail': ''}
     ob.result = r
     if u.error:
@@ -292,6 +294,7 @@ def check_ob(ob, seed, known):
             rc2, o2 = run_native(u, 'exe_ubsan', ob.entry, ob.param, vec, 0, keepgoing=True, tag='cex')
             r['replay_native'] = o1[-600:]; r['replay_ubsan'] = o2[-1200:]
             labels = re.findall(r'ASSERT-FAIL (.*)', o1)
+            if not labels and o1.startswith('THROW') and not u.throw_ok and any('exception thrown' in f[1] for f in fp): labels = ['C++ exception thrown (uncaught)']
             ub = 'runtime error' in o2
             if unwinding and len(unwinding) == len(fp):
                 r['status'] = 'error'; r['detail'] = 'unwinding bound too small: ' + '; '.join(f[0] for f in unwinding)
